@@ -29,8 +29,8 @@ The modelled program (what harness/hx-c10 builds from the real crates):
 | `manualSet`               | `Set::set` on the derived through its `Write` impl: `WriteGuard` drop ⇒ `Notify::notify` = `notify_subs(.., None)` |
 | `refetch`                 | `d.mark_dirty()` (what `Resource::refetch` amounts to at this level) |
 | `pollA`                   | `AsyncDerivedFuture::poll` (future_impls.rs): `loading ⇒ wakers.push(waker); Pending`, else `Ready(value.unwrap())` |
-| `memoUpdate`, `mMarkDirty`| `MemoInner::update_if_necessary` / `mark_dirty` (computed/inner.rs); the only subscriber of `m` is the effect, which is the current observer in every call context, so the "mark subscribers dirty" loop skips it |
-| `effUpdate`, `effAny`     | `EffectInner::update_if_necessary` (effect/inner.rs: `dirty` flag, then `any` over the sources in read order) |
+| `memoUpdate`, `mMarkDirty`| `MemoInner::update_if_necessary` / `mark_dirty` (computed/inner.rs); the only subscriber of `m` is the effect: skipped as the current observer while the effect runs, marked dirty when `m` changes during the effect's (untracked) check phase |
+| `effUpdate`, `effAny`     | `EffectInner::update_if_necessary` (effect/inner.rs, as of /repo commit "fix: effects can miss an update or run twice…"): `dirty` flag, else `untrack(any over the sources in read order)`, then `was_marked = take(dirty)` |
 | `eIter`, `eLoop`, `runEffect` | the task of `Effect::new` (effect/effect.rs): `while rx.next().await.is_some() { if update_if_necessary || first_run { clear_sources; run } }` |
 | `readyList`, `pollNth`    | `hx_common::sched`: live woken tasks in spawn order (derived, effect, awaiters); `poll j` = its `j mod len`-th entry |
 | `complete`                | `oneshot::Sender::send`: wakes the waker of the last poll of the receiver (the task's once it has polled the fetch; the no-op waker of `now_or_never()` before) |
@@ -43,9 +43,10 @@ entry; waking only sets a flag, so the order is irrelevant). `latest_version == 
 (`version`, `fetchVersion`) although it can never fail: only the task itself increments `version`.
 
 Ghost state (never read by the algorithm): `stolen`, `manualLive`, `lastManual`, `notifs`, `panicked`.
-Loops carry fuel; running out of fuel yields (the task stays woken), which never happens: after one
-iteration that goes round again the channel flag is clear, so the next one suspends
-(`dLoop_eq`, `eLoop_eq` in Proofs/Async.lean).
+Loops carry fuel; running out of fuel yields (the task stays woken).  For the derived's task that never
+happens: after one iteration that goes round again the channel flag is clear, so the next one suspends
+(`dLoop_eq` in Proofs/Async.lean).  The effect's loop goes round at most three times (a memo that changes
+during the check phase re-sets the channel flag once); its invariant is proved for every fuel.
 
 Not modelled: `Suspense` bookkeeping (`suspenses`, `SuspenseContext` — no context in scope in the
 harness), `AsyncTransition` (`ready_tx`: no transition running), `owner.paused()`, sources of the derived
@@ -251,13 +252,19 @@ def pollD (s : State) : State :=
 
 /-! ## memo and effect -/
 
-def memoUpdate (s : State) : State × Bool :=
+/-- `MemoInner::update_if_necessary`.  `inCheck` = called from the effect's check phase, which (since the
+fix "effects can miss an update or run twice…") walks the sources under `untrack`: no observer is
+installed, so a changed memo marks every subscriber dirty, the effect included.  When called from the
+effect's own run the effect is the current observer and is skipped. -/
+def memoUpdate (inCheck : Bool) (s : State) : State × Bool :=
   match s.mstate with
   | .clean => (s, false)
   | .check => ({ s with mstate := .clean }, false)
   | .dirty =>
     let new := memoFn s.src
-    ({ s with mval := some new, mstate := .clean, mRan := true }, decide (s.mval ≠ some new))
+    let changed := decide (s.mval ≠ some new)
+    let s := { s with mval := some new, mstate := .clean, mRan := true }
+    (if changed && inCheck && s.eSubM then eMarkDirty s else s, changed)
 
 /-- `d.update_if_necessary()` called by a subscriber that has `d` among its sources -/
 def dAsSource (s : State) : State × Bool :=
@@ -273,16 +280,20 @@ def effSources (k : EffKind) : List Src :=
 def effAny : List Src → State → State × Bool
   | [], s => (s, false)
   | x :: rest, s =>
-    let r := match x with | .d => dAsSource s | .m => memoUpdate s
+    let r := match x with | .d => dAsSource s | .m => memoUpdate true s
     if r.2 then (r.1, true) else effAny rest r.1
 
+/-- `EffectInner::update_if_necessary`: the `dirty` flag; else `any` over the sources (untracked), then
+`was_marked = take(dirty)` — a mark received while checking belongs to this run -/
 def effUpdate (s : State) : State × Bool :=
   if s.eDirty then ({ s with eDirty := false }, true)
-  else effAny (if s.eFirst then [] else effSources s.eff) s
+  else
+    let r := effAny (if s.eFirst then [] else effSources s.eff) s
+    ({ r.1 with eDirty := false }, r.2 || r.1.eDirty)
 
 def effRead (s : State) : Src → State
   | .d => { s with eSubD := true }
-  | .m => (memoUpdate { s with eSubM := true }).1
+  | .m => (memoUpdate false { s with eSubM := true }).1
 
 def runEffect (s : State) : State :=
   let s := { s with eFirst := false, eSubD := false, eSubM := false }
@@ -300,7 +311,7 @@ def eLoop : Nat → State → State
   | 0, s => { s with eWoken := true }
   | n + 1, s => if (eIter s).2 then eLoop n (eIter s).1 else (eIter s).1
 
-def pollE (s : State) : State := eLoop 3 { s with eWoken := false }
+def pollE (s : State) : State := eLoop 4 { s with eWoken := false }
 
 /-! ## awaiters -/
 
